@@ -238,6 +238,20 @@ def check_rid(rec: Rec, w0, w1, dl, other, nontrivial=True):
     rec.outcome("rid-ok/routes=%d/ver%s0" % (len(objs), "!=" if ver else "="))
 
 
+_HASHDEP = {}  # bit -> [pairs (base, base ^ bit) with equal hashes, pairs]: the weak form "the hash does not ignore a field"
+
+
+def check_hash_uses_every_bit(rec: Rec):
+    """equal IDs hash equally (judged per pair); the other direction cannot be demanded pair by pair (collisions are legal), but a hash
+    under which EVERY pair that differs in one particular bit collides does not depend on that bit - then 'equal iff the same 32
+    bits, with equal hashes' holds in one direction only"""
+    for k, (same, total) in sorted(_HASHDEP.items()):
+        if total >= 8 and same == total:
+            rec.violation("C15.hash/RequestId.__hash__/ignores-field=" + bit_field(k), {"kind": "hashdep", "bit": k, "pairs": total},
+                          f"all {total} pairs differing only in bit {k} have equal hashes", "the hash depends on every bit of the request ID")
+    _HASHDEP.clear()
+
+
 def check_neigh(rec: Rec, base, nontrivial=True):
     """all 32 single-bit neighbours of `base` must be unequal to it (hash inequality is NOT demanded)"""
     case = {"kind": "neigh", "base": base}
@@ -261,6 +275,12 @@ def check_neigh(rec: Rec, base, nontrivial=True):
         except Exception as e:
             rec.violation("C15.equal/RequestId/neighbours/exception/" + type(e).__name__, case, repr(e))
             continue
+        try:
+            st = _HASHDEP.setdefault(k, [0, 0])
+            st[1] += 1
+            st[0] += hash(b) == hash(n)
+        except Exception:  # noqa: BLE001 - hashability is judged elsewhere
+            pass
         if same:
             rec.violation("C15.equal/RequestId/single-bit-neighbour-compares-equal/field=" + bit_field(k), case,
                           {"base": "%08x" % base, "neighbour": "%08x" % n32, "bit": k, "neighbour_route": route}, "unequal",
@@ -993,6 +1013,7 @@ def run_shard(item):
         bases = neigh_bases(item["tier"])
         for b in bases[item["lo"]:item["hi"]]:
             check_neigh(rec, b)
+        check_hash_uses_every_bit(rec)
         rec.count("neighbour_bases", item["hi"] - item["lo"])
         rec.sample({"neighbour_clause": "base %08x: each of the 32 values base ^ (1 << k) must compare unequal (==, != in both directions)" % bases[item["lo"] + 2]}, limit=1)
     elif kind == "s1":
@@ -1054,6 +1075,11 @@ def replay(case):
         check_rid(rec, case["w"][0], case["w"][1], case["dl"], case["other"])
     elif kind == "neigh":
         check_neigh(rec, case["base"])
+    elif kind == "hashdep":
+        _HASHDEP.clear()
+        for b in neigh_bases("quick")[:40]:
+            check_neigh(rec, b)
+        check_hash_uses_every_bit(rec)
     elif kind == "empty":
         check_empty(rec)
     elif kind == "s1":
